@@ -22,7 +22,7 @@ def gen(ctx):
     peers2 = ["p1", "p2"]
     alpha = []
     for p in peers2:
-        alpha += [f"j:{p}", f"a:{p}", f"l:{p}", f"f:{p}#0:1", f"f:{p}#0:0", f"f:{p}#1:1"]
+        alpha += [f"j:{p}", f"a:{p}", f"l:{p}", f"f:{p}#0:1", f"f:{p}#0:0", f"f:{p}#1:1", f"f:{p}#0:2"]
     alpha.append("t:700")
     L = 4 if ctx.tier == "thorough" else 3
     for mx in (1, 2):
@@ -32,6 +32,13 @@ def gen(ctx):
                 if seq[0].startswith("f:"):
                     continue
                 add(mx, 600, list(seq))
+    # a receiver waiting for the only slot(s) for many idle periods while the ones ahead are served; then the slot frees
+    for mx in (1, 2):
+        ahead = [f"p{i}" for i in range(1, mx + 1)]
+        pre = [x for p in ahead for x in (f"j:{p}", f"a:{p}")] + ["j:p8", "a:p8", "j:p9", "a:p9"]
+        for ticks in (["t:601"], ["t:300", "t:400"], ["t:5000", "t:5000", "t:5000"]):
+            for ok in "012":
+                add(mx, 600, pre + ticks + [f"f:p1#0:{ok}"] + ticks + [f"f:p8#0:{ok}"])
     # P11-shaped histories with every placement of the stale finish
     base = ["j:p1", "a:p1", "l:p1", "j:p1", "a:p1", "j:p2", "a:p2"]
     for mx in (1, 2):
@@ -56,7 +63,7 @@ def gen(ctx):
             elif r < 12:
                 evs.append(f"l:{p}")
             elif r < 19:
-                evs.append(f"f:{p}#{rng.range(0, max(starts[p] - 1, 0))}:{rng.below(2)}")
+                evs.append(f"f:{p}#{rng.range(0, max(starts[p] - 1, 0))}:{rng.below(3)}")
             else:
                 evs.append(f"t:{rng.choice([10, 599, 601, 5000])}")
         add(mx, 600, evs)
@@ -122,6 +129,12 @@ def search(ctx, cases, impl):
             for l, c in r.items():
                 if l not in prev[3] and c:
                     ctx.violation("C12:started-cancelled", f"transfer {l} was started with an already cancelled context", hist)
+            # a receiver that was waiting keeps waiting or is being served, unless it is the one that left (whatever else happened: other
+            # receivers' events, transfer ends of any kind, idle clean-up ticks however late)
+            for p, v in prev[2].items():
+                if v == "QUEUED" and ev != f"l:{p}" and s.get(p) not in ("QUEUED", "TRANSFERRING"):
+                    ctx.violation("C12:waiting-receiver-dropped", f"{p} was waiting in the queue and did not leave, but after {ev} its state is {s.get(p, 'forgotten')} "
+                                  f"(queue {q}, serving {a}, max-receivers {mx})", hist)
             if ev.startswith("l:"):
                 p = ev[2:]
                 if p in q or p in a or any((l.split("#")[0] == p and not c) for l, c in r.items()):
